@@ -115,6 +115,18 @@ def run(ctx):
                     'validated by the tie, not proved']
     ctx.assumptions += ['ply 3.11 as installed in /venv', 'optimize.reoptimize is run on the scratch copy of /repo/src only']
     texts = texts_for(ctx)
+    # process history that must not matter to any configuration: the FIRST parser that loads the generated modules fails on
+    # a broken regular-expression literal (its lexer is left in the `regex` state), every kind of printer has been
+    # constructed (the obfuscating one reads the lexer's keyword table)
+    from calmjs.parse.unparsers import es5 as unparsers_es5
+    first = es5.Parser()
+    for bad in ('var re = /abc', 'x = /[a-z/g', 'y = "unterminated'):
+        result_of(first, bad)
+    for mk in (unparsers_es5.pretty_printer, unparsers_es5.minify_printer,
+               lambda: unparsers_es5.minify_printer(obfuscate=True, obfuscate_globals=True, shadow_funcname=True, drop_semi=True)):
+        mk()
+    texts = ['var let = 1, static = 2; yield = let + static;', 'function f(package, interface) { return public.private; }',
+             'implements: for (;;) break implements;'] + texts
     parsers = {}
     for wc in (False, True):
         parsers[('cached', wc)] = es5.Parser(with_comments=wc)
